@@ -310,6 +310,7 @@ def unsat_biased_body(g, rng, n_named=4, p_named=0.8, nested=True, histories=Tru
         nn[0] += 1
         return "n%d" % nn[0]
     asserted_ids = set()
+    named_terms = set()
     allow_dups = rng.random() < 0.08
     def mk_assert():
         f = small_formula()
@@ -322,9 +323,14 @@ def unsat_biased_body(g, rng, n_named=4, p_named=0.8, nested=True, histories=Tru
         if rng.random() < p_named:
             nm = fresh_name(); level_names[-1].append(nm)
         elif nested and rng.random() < 0.4 and tb.rec(f)["k"] == "a" and tb.rec(f)["op"] in ("or", "and"):
-            sub = tb.rec(f)["a"][0]
+            args = tb.rec(f)["a"]
+            # a second name for a term that is itself a named assertion (an alias), when there is one
+            al = [a for a in args if a in named_terms]
+            sub = rng.choice(al) if al else args[0]
             n2 = fresh_name(); level_names[-1].append(n2)
             inner = [(n2, sub)]
+        if nm:
+            named_terms.add(f)
         return {"c": "assert", "t": f, "nm": nm, "inner": inner}
     total = 0
     depth = 0
@@ -731,11 +737,27 @@ def b_outlogic(job):
     else:
         bad.append(tb.app("<=", [tb.app("*", [x, y]), c(2)]))
         bad.append(tb.app("=", [tb.app("*", [x, x]), c(4)]))
+        # non-linear products that carry a coefficient, sums, nested products: the linear-term normaliser sees them
+        k1, k2 = rng.choice([1, 2, 3, -2]), rng.randint(-3, 6)
+        rel = lambda t: tb.app(rng.choice(["=", "<=", ">=", "<"]), [t, c(k2)])
+        bad.append(rel(tb.app("*", [c(k1), x, y])))
+        bad.append(rel(tb.app("*", [x, tb.app("*", [c(3), y])])))
+        bad.append(rel(tb.app("*", [tb.app("*", [c(2), x]), tb.app("*", [c(k1), y])])))
+        bad.append(rel(tb.app("*", [c(k1), tb.app("+", [x, c(1)]), tb.app("+", [y, c(1)])])))
+        bad.append(rel(tb.app("*", [tb.app("+", [x, c(1)]), c(k1), tb.app("+", [y, z])])))
+        bad.append(rel(tb.app("*", [tb.app("+", [x, y]), tb.app("+", [y, c(1)]), c(1)])))
+        bad.append(rel(tb.app("*", [x, tb.app("+", [y, c(2)]), c(k1)])))
+        if S == REAL:
+            bad.append(rel(tb.app("*", [x, tb.app("/", [y, c(2)])])))
     atoms = g.atom_pool(3)
     cmds = []
     for b in g.box_asserts():
         cmds.append({"c": "assert", "t": b, "nm": "", "inner": []})
     k = rng.randint(1, 2)
+    if not g.dl and rng.random() < 0.6:
+        # pin the variables so that the value of the product is determined
+        for v in (x, y):
+            cmds.append({"c": "assert", "t": tb.app("=", [v, c(rng.randint(-2, 3))]), "nm": "", "inner": []})
     fl = [g.formula(atoms, 1) for _ in range(2)] + rng.sample(bad, min(k, len(bad)))
     rng.shuffle(fl)
     for f in fl:
